@@ -28,6 +28,25 @@ CHECKS = {
  "C17": ("exploration", "runtime monitor: real MANIFEST append/rewrite/replay vs reference map, truncation sweep and byte-flip injection",
          "Real manifestFile.addChanges (rewrite threshold 5-50) and ReplayManifestFile on random change-set sequences; in-memory map, reference map and replay must agree after every set; every truncation offset since the last rewrite must replay to the last complete set; payload/crc flips must error.",
          "Duplicate CREATE (caller bug) not generated; length-field flips excluded (indistinguishable from torn tail).", "4/C17"),
+
+ "C01": ("exploration", "history recording + MVCC reference model (offline read oracle), delay injection at hooks, race detector",
+         "Concurrent recorded histories (8-12 clients, RO/RW/long-lived snapshots) on 10 option variants with tiny memtables, background compaction, a GC loop in half of the histories and seeded delays at commit/flush/compaction/GC points; every Get and iterator result (tens of thousands per run) is compared offline with Visible(key, readTs) of a model built from marker-resolved commit timestamps.",
+         "Only interleavings the scheduler and injected delays produce; AllVersions iteration checked in C05; histories with a GC loop hit the known GC-resurrection defect (known_findings.json).", "4/C01"),
+ "C02": ("exploration", "history recording + conflict oracles (must-reject / must-accept) + bank invariant monitor, delay injection, race detector",
+         "Recorded RW histories on 5-10 keys in normal and managed mode incl. long-running transactions; oracle (a) no committed T overlaps a committed writer of a key it read, (b) every ErrConflict is justified, (c) rejected commits leave no marker; bank auditors assert the balance sum on every snapshot.",
+         "Fingerprint collisions ignored; no drops/closes/oversized transactions in this workload; managed mode uses monotone harness-chosen timestamps.", "4/C02"),
+ "C03": ("exploration", "history recording + commit-order/visibility oracles + porcupine register check, delay injection, race detector",
+         "Recorded histories with >=3-key writers, read-all readers, 40% CommitWith; distinct marker versions, real-time order implies timestamp order, post-ack transactions have ReadTs >= ts, all-or-none via the read oracle, rejected commits leave no marker, porcupine per-key register linearizability.",
+         "Rejections here are conflicts; size-limit/closed-DB rejections are covered in C28/C38.", "4/C03"),
+ "C04": ("exploration", "history recording + overlay reference model for own pending writes",
+         "1-3 clients, up to 10 pending writes per transaction (meta, past/future expiry, discard, delete) each followed by Get/iterators created after the write; oracle overlays the pending map on the snapshot; watermark pinned so AllVersions is exact.",
+         "Seeks under a configured Prefix carry the prefix.", "4/C04"),
+ "C05": ("exploration", "history recording + independent iterator reference implementation over data spread across memtable/L0/levels",
+         "Histories over 32-64 hostile keys with ~90% iterator reads of every option shape while flushes and compactions spread data over the levels; pinned watermark makes AllVersions exact; item-by-item comparison with the reference iterator.",
+         "Seeks under a configured Prefix carry the prefix (semantic boundary documented in DESIGN).", "4/C05"),
+ "C06": ("exploration", "history recording + full value digest comparison across a size ladder and four read paths",
+         "Value sizes 0..64KiB around static thresholds and dynamic VLogPercentile thresholds; every read path compared by digest during the run, after it and after re-open.",
+         "GC excluded (C15); sizes up to 64 KiB.", "4/C06"),
 }
 
 def hooks_commits():
